@@ -22,7 +22,7 @@ func (c05) Components() map[string][]string {
 	}
 }
 func (c05) ProbeNames() []string {
-	return []string{"created", "e2fsck-runs", "journal", "metadata-csum", "remove", "symlink", "dir-growth", "fragmented-extents", "volume-share-write", "fill-reached-refusal", "extent-tree-depth2"}
+	return []string{"created", "e2fsck-runs", "journal", "metadata-csum", "remove", "symlink", "dir-growth", "fragmented-extents", "volume-share-write", "fill-reached-refusal", "extent-tree-depth2", "truncating-open"}
 }
 func (c05) Budget(tier string) (int, int, int) {
 	if tier == "thorough" {
